@@ -143,13 +143,27 @@ theorem depth_l4Tree (x : L4) : depth (l4Tree x) ≤ 1 := by
   | tcp s d off res fl => exact depth_numObj _ _
   | udp s d => exact depth_numObj _ _
 
-theorem depth_pktTree (p : Pkt) : depth (pktTree p) ≤ 2 := by
-  refine depth_obj _ 1 ?_; intro q hq
-  simp only [List.mem_cons, List.not_mem_nil, or_false] at hq
+theorem depth_pktMembers (p : Pkt) : ∀ q ∈ pktMembers p, depth q.2 ≤ 1 := by
+  intro q hq
+  simp only [pktMembers, List.mem_cons, List.not_mem_nil, or_false] at hq
   rcases hq with rfl | rfl | rfl
   · exact depth_l2Tree _
   · exact depth_l3Tree _
   · exact depth_l4Tree _
+
+theorem depth_pktTree (p : Pkt) : depth (pktTree p) ≤ 2 := depth_obj _ 1 (depth_pktMembers p)
+
+/-- the raw-header record with its own four words (F33) is no deeper than the packet alone: the words are members
+of the same object as `L2` / `L3` / `L4` -/
+theorem depth_rawHeaderTree (h : RawHeader) : depth (rawHeaderTree h) ≤ 2 := by
+  refine depth_obj _ 1 ?_; intro q hq
+  rw [List.mem_append] at hq
+  rcases hq with hq | hq
+  · simp only [rawHeaderWords, List.mem_cons, List.not_mem_nil, or_false] at hq
+    rcases hq with rfl | rfl | rfl | rfl <;> exact Nat.zero_le _
+  · cases hp : h.pkt with
+    | none => rw [hp] at hq; simp at hq
+    | some p => rw [hp] at hq; exact depth_pktMembers p q hq
 
 theorem depth_extRouterTree (x : ExtRouter) : depth (extRouterTree x) ≤ 1 := by
   refine depth_obj _ 0 ?_; intro p hp
@@ -169,7 +183,7 @@ theorem depth_flowRecsTree (m : FlowRecs) : depth (flowRecsTree m) ≤ 3 := by
   rcases hp with (hp | hp) | hp
   · exact depth_entry _ _ _ 2 (fun x => Nat.le_trans (depth_extRouterTree x) (by omega)) p hp
   · exact depth_entry _ _ _ 2 (fun x => Nat.le_trans (depth_numObj _ _) (by omega)) p hp
-  · exact depth_entry _ _ _ 2 depth_pktTree p hp
+  · exact depth_entry _ _ _ 2 depth_rawHeaderTree p hp
 
 theorem depth_flowSampleTree (s : FlowSample) : depth (flowSampleTree s) ≤ 4 := by
   refine depth_obj _ 3 ?_; intro p hp
